@@ -182,6 +182,26 @@ def close_rel(ctx, g):
             okp = True
     ctx.ob("T3-propagate-single-cut", b.name, "push_back<-cuts.len() == 1", "ok" if okp else "violation",
            "a relator cycle propagates a word exactly when one of its edges is unlabelled" if okp else "propagation is not guarded by cuts.len() == 1")
+    # ... counted WITH MULTIPLICITY: a relator such as (ab)^k can cross the same unlabelled edge several times; only if it crosses it exactly
+    # once (and everything else on the walk is known) can the edge's word be solved for.  The unlabelled occurrences are therefore kept in a
+    # sequence that grows by one per occurrence, not in a map or set keyed by the edge.
+    okseq = False
+    why = "no length test found"
+    for bi, t in b.calls("VecDeque::<T, A>::push_back"):
+        for a in b.facts_at(bi):
+            a = atom_norm(a, g)
+            if a[0] == "rel" and a[1] == "Eq" and a[3] == ("int", 1) and a[2][0] == "call" and a[2][1].endswith("::len"):
+                coll = strip(a[2][2][0])
+                ty = b.local_ty(coll[1]) if coll[0] == "local" else ""
+                isvec = a[2][1].endswith("Vec::<T, A>::len") or "Vec<" in ty and "Map" not in ty and "Set" not in ty
+                pushes = [pb for pb, pt in b.calls("Vec::<T, A>::push") if strip(norm(b.origin(pt["args"][0]), g)) == coll]
+                guarded = all(any(atom_norm(x, g)[0] == "bool" and is_call(atom_norm(x, g)[1], "contains_key") and atom_norm(x, g)[2] is False for x in b.facts_at(pb)) for pb in pushes)
+                okseq = isvec and len(pushes) >= 1 and guarded
+                why = "the collection is %s with %d per-occurrence pushes under !contains_key" % (ty[:40] or a[2][1].split("::")[-2], len(pushes))
+    ctx.ob("T3-propagate-single-cut", b.name, "cuts counts occurrences", "ok" if okseq else "violation",
+           "unlabelled occurrences are pushed one by one into a Vec and the propagation needs exactly one of them" if okseq else
+           "the unlabelled edges of a relator walk are not counted with multiplicity (%s): a relator that crosses one unlabelled edge several times (a power relator at a row with torsion) "
+           "wrongly 'deduces' a word for it instead of leaving it to become a stabiliser generator" % why)
 
 
 def tree(ctx, g):
